@@ -205,8 +205,28 @@ pub fn real_async(stream: &[u8], cuts: &[usize], max: usize) -> Result<Vec<Out>,
     r.map_err(|e| format!("PANIC: {:?}", e.downcast_ref::<String>().cloned().or_else(|| e.downcast_ref::<&str>().map(|s| s.to_string()))))
 }
 
-pub fn unhex(s: &str) -> Vec<u8> { (0..s.len() / 2).map(|i| u8::from_str_radix(&s[2 * i..2 * i + 2], 16).unwrap()).collect() }
-pub fn to_hex(b: &[u8]) -> String { hex(b) }
+/// hex text, optionally COMPACT: chunks separated by `.`, a chunk `xx*N` stands for N copies of the byte xx (long runs in big payloads
+/// would not fit on a command line otherwise)
+pub fn unhex(s: &str) -> Vec<u8> {
+    let plain = |t: &str| -> Vec<u8> { (0..t.len() / 2).map(|i| u8::from_str_radix(&t[2 * i..2 * i + 2], 16).unwrap()).collect() };
+    if !s.contains('.') && !s.contains('*') { return plain(s); }
+    let mut out = vec![];
+    for t in s.split('.') {
+        if let Some((b, n)) = t.split_once('*') { let v = u8::from_str_radix(b, 16).unwrap(); out.extend(std::iter::repeat(v).take(n.parse().unwrap())); } else { out.extend(plain(t)); }
+    }
+    out
+}
+pub fn to_hex(b: &[u8]) -> String {
+    if b.len() < 20_000 { return hex(b); }
+    let mut parts: Vec<String> = vec![]; let mut i = 0; let mut lit = 0;
+    while i < b.len() {
+        let mut j = i; while j < b.len() && b[j] == b[i] { j += 1; }
+        if j - i >= 32 { if lit < i { parts.push(hex(&b[lit..i])); } parts.push(format!("{:02x}*{}", b[i], j - i)); lit = j; }
+        i = j;
+    }
+    if lit < b.len() { parts.push(hex(&b[lit..])); }
+    parts.join(".")
+}
 
 /// which properties a deviation from the oracle speaks about
 pub fn deviation_props(stream: &[u8], expect: &[Out], got: &Result<Vec<Out>, String>, other_flavour: &Result<Vec<Out>, String>, unsegmented: &Result<Vec<Out>, String>) -> Vec<&'static str> {
